@@ -7,143 +7,35 @@ package main
 import (
 	"encoding/json"
 	"fmt"
-	"sort"
 	"strings"
 
 	gmsl "github.com/matrix-org/gomatrixserverlib"
 
-	"verif/mc/authgen"
 	"verif/mc/harness"
 	"verif/mc/ref/refstate"
-	"verif/mc/ref/refversions"
 	"verif/mc/srgen"
+	"verif/mc/srscn"
 )
 
-type scenario struct {
-	Version        string
-	IDMode, TSMode int
-	A, B           []string // action names of the two branches
-	Third          []string // optional third branch
-}
+type scenario = srscn.Scenario
 
-func byName(version string) map[string]srgen.Action {
-	m := map[string]srgen.Action{}
-	for _, a := range srgen.Actions(version) {
-		m[a.Name] = a
-	}
-	return m
-}
+func build(sc scenario) *srscn.Built { return srscn.Build(sc) }
 
-type built struct {
-	h    *srgen.History
-	sets [][]*srgen.E
-	all  []*srgen.E
-	sig  string
-}
+func algoOf(version string) int { return srscn.AlgoOf(version) }
 
-func build(sc scenario) *built {
-	acts := byName(sc.Version)
-	h, base := srgen.New(sc.Version, sc.IDMode, sc.TSMode)
-	tip := []string{h.Order[len(h.Order)-1].ID}
-	var sets [][]*srgen.E
-	var sigs []string
-	for _, br := range [][]string{sc.A, sc.B, sc.Third} {
-		if br == nil {
-			continue
-		}
-		var as []srgen.Action
-		for _, n := range br {
-			as = append(as, acts[n])
-		}
-		st, _, added := h.Branch(base, tip, as)
-		var set []*srgen.E
-		for _, e := range st {
-			set = append(set, e)
-		}
-		sort.Slice(set, func(i, j int) bool { return set[i].Seq < set[j].Seq })
-		sets = append(sets, set)
-		var names []string
-		for _, e := range added {
-			names = append(names, e.Type+"/"+e.SK+"/"+e.Sender+"/"+e.Content)
-		}
-		sigs = append(sigs, strings.Join(names, ";"))
-	}
-	sort.Strings(sigs)
-	return &built{h, sets, h.Order, strings.Join(sigs, "||")}
-}
-
-func algoOf(version string) int { return refversions.Get(version).StateRes }
-
-func resolveLib(b *built, version string) ([]string, error) {
-	pdus := map[string]gmsl.PDU{}
-	for _, e := range b.all {
-		p, err := b.h.PDU(e)
-		if err != nil {
-			return nil, fmt.Errorf("harness: %v", err)
-		}
-		pdus[e.ID] = p
+func resolveLib(b *srscn.Built, version string) ([]string, error) {
+	if err := b.Materialise(); err != nil {
+		return nil, err
 	}
 	var sets [][]gmsl.PDU
-	for _, s := range b.sets {
-		var l []gmsl.PDU
-		for _, e := range s {
-			l = append(l, pdus[e.ID])
-		}
-		sets = append(sets, l)
+	for _, s := range b.Sets {
+		sets = append(sets, b.PDUList(s))
 	}
-	var auth []gmsl.PDU
-	if algoOf(version) == 1 {
-		// v1 takes the unconflicted auth-type events, one per key
-		for _, e := range v1Auth(b) {
-			auth = append(auth, pdus[e.ID])
-		}
-	} else {
-		for _, e := range b.all {
-			auth = append(auth, pdus[e.ID])
-		}
-	}
-	var res []gmsl.PDU
-	var err error
-	if p, msg := harness.Try(func() {
-		res, err = gmsl.ResolveConflictsNew(gmsl.RoomVersion(version), sets, auth, authgen.UID, func(id string) bool { return b.h.Events[id] != nil && b.h.Events[id].Rejected })
-	}); p {
-		return nil, fmt.Errorf("ResolveConflictsNew panics: %s", msg)
-	}
+	res, err := b.ResolveNew(version, sets, b.PDUList(b.AuthFor(version)))
 	if err != nil {
-		return nil, fmt.Errorf("ResolveConflictsNew: %v", err)
+		return nil, err
 	}
-	var ids []string
-	for _, p := range res {
-		ids = append(ids, p.EventID())
-	}
-	sort.Strings(ids)
-	return ids, nil
-}
-
-// v1Auth: auth-type events on which all state sets agree
-func v1Auth(b *built) []*srgen.E {
-	count := map[string]int{}
-	keyIDs := map[string]map[string]bool{}
-	for _, s := range b.sets {
-		for _, e := range s {
-			count[e.ID]++
-			if keyIDs[e.Key()] == nil {
-				keyIDs[e.Key()] = map[string]bool{}
-			}
-			keyIDs[e.Key()][e.ID] = true
-		}
-	}
-	var out []*srgen.E
-	for _, e := range b.sets[0] {
-		if len(keyIDs[e.Key()]) != 1 {
-			continue
-		}
-		switch e.Type {
-		case "m.room.create", "m.room.power_levels", "m.room.join_rules", "m.room.member", "m.room.third_party_invite":
-			out = append(out, e)
-		}
-	}
-	return out
+	return srscn.IDs(res), nil
 }
 
 func check(r *harness.Run, sc scenario) (string, error) {
@@ -151,13 +43,13 @@ func check(r *harness.Run, sc scenario) (string, error) {
 	b := build(sc)
 	got, err := resolveLib(b, sc.Version)
 	if err != nil {
-		return b.sig, err
+		return b.Sig, err
 	}
-	auth := b.all
+	auth := b.All
 	if algoOf(sc.Version) == 1 {
-		auth = v1Auth(b)
+		auth = b.V1Auth()
 	}
-	st := refstate.Resolve(b.h, algoOf(sc.Version), b.sets, auth)
+	st := refstate.Resolve(b.H, algoOf(sc.Version), b.Sets, auth)
 	if strings.Join(got, ",") != strings.Join(st.Result, ",") {
 		var onlyLib, onlyRef []string
 		in := map[string]bool{}
@@ -176,10 +68,10 @@ func check(r *harness.Run, sc scenario) (string, error) {
 				onlyRef = append(onlyRef, x)
 			}
 		}
-		return b.sig, fmt.Errorf("room version %s (algorithm %d), branches %v | %v | %v, ids %d ts %d: library resolves %v but the algorithm gives %v (conflicted %v; power order %v; mainline %v; mainline order %v; rejected by iterative auth %v)", sc.Version, algoOf(sc.Version), sc.A, sc.B, sc.Third, sc.IDMode, sc.TSMode, onlyLib, onlyRef, st.Conflicted, st.PowerOrder, st.Mainline, st.MainlineOrder, st.Rejected)
+		return b.Sig, fmt.Errorf("room version %s (algorithm %d), branches %v | %v | %v, ids %d ts %d: library resolves %v but the algorithm gives %v (conflicted %v; power order %v; mainline %v; mainline order %v; rejected by iterative auth %v)", sc.Version, algoOf(sc.Version), sc.A, sc.B, sc.Third, sc.IDMode, sc.TSMode, onlyLib, onlyRef, st.Conflicted, st.PowerOrder, st.Mainline, st.MainlineOrder, st.Rejected)
 	}
 	if len(st.Conflicted) > 0 {
-		r.Nontrivial(sc.Version + fmt.Sprint(sc.IDMode, sc.TSMode) + b.sig)
+		r.Nontrivial(sc.Version + fmt.Sprint(sc.IDMode, sc.TSMode) + b.Sig)
 	}
 	if len(st.Rejected) > 0 {
 		r.Outcome("some-event-rejected")
@@ -188,7 +80,7 @@ func check(r *harness.Run, sc scenario) (string, error) {
 	} else {
 		r.Outcome("no-conflict")
 	}
-	return b.sig, nil
+	return b.Sig, nil
 }
 
 func main() { harness.Main("C10", "model_checking", run) }
@@ -253,7 +145,7 @@ func run(r *harness.Run) {
 					if m.id == 0 && m.ts == 0 {
 						// dedup on the generated branches (many action sequences are refused or no-ops)
 						b := build(sc)
-						if !seen.add(b.sig) {
+						if !seen.add(b.Sig) {
 							break
 						}
 					}
@@ -284,9 +176,14 @@ func run(r *harness.Run) {
 		r.Parallel(n, func(i int) {
 			for j := i; j < len(names); j++ {
 				for k := j; k < len(names); k++ {
-					sc := scenario{Version: ver, IDMode: 0, TSMode: 0, A: []string{names[i]}, B: []string{names[j]}, Third: []string{names[k]}}
-					if _, err := check(r, sc); err != nil {
-						r.Violation(fmt.Sprintf("scenario:%s/three-way:%v|%v|%v", ver, sc.A, sc.B, sc.Third), err.Error(), "scenario", sc)
+					for _, pre := range [][]string{nil, {"pl-promote-carol"}, {"pl-events-default-50"}, {"jr-invite"}} {
+						if pre != nil && r.Quick() && (i+j+k)%2 != 0 {
+							continue
+						}
+						sc := scenario{Version: ver, IDMode: 0, TSMode: 0, A: []string{names[i]}, B: []string{names[j]}, Third: []string{names[k]}, Prefix: pre, ThirdFromBase: pre != nil && (i+j)%2 == 0}
+						if _, err := check(r, sc); err != nil {
+							r.Violation(fmt.Sprintf("scenario:%s/three-way:%v>%v|%v|%v", ver, pre, sc.A, sc.B, sc.Third), err.Error(), "scenario", sc)
+						}
 					}
 				}
 			}
